@@ -343,4 +343,37 @@ theorem flatten_uniform_getElem? (l : List Cell) (T : Nat) (h : ∀ c ∈ l, c.l
       have : (j + 1) * T + t - c.length = j * T + t := by rw [hc, Nat.succ_mul]; omega
       rw [this, ih' j]
 
+/-! ### generic helpers -/
+
+theorem mapM_except_ok {α β ε} (f : α → Except ε β) (g : α → β) (l : List α)
+    (h : ∀ a ∈ l, f a = .ok (g a)) : l.mapM f = .ok (l.map g) := by
+  induction l with
+  | nil => rfl
+  | cons a l ih =>
+    simp only [List.mapM_cons, bind, Except.bind, h a List.mem_cons_self,
+      ih (fun b hb => h b (List.mem_cons_of_mem _ hb)), List.map_cons, pure, Except.pure]
+
+/-- putting per-column results back together row by row gives the cell-wise map -/
+theorem transpose_columns_map (X : Panel) (nc : Nat) (h : Columns X nc) (g : Cell → Cell) :
+    (List.range X.length).map (fun i => ((List.range nc).map (fun j => (column X j).map g)).map
+      (fun col => col.getD i [])) = X.map (fun inst => inst.map g) := by
+  apply List.ext_getElem
+  · simp
+  · intro i h1 h2
+    have hi : i < X.length := by simpa using h1
+    simp only [List.getElem_map, List.getElem_range, List.map_map]
+    have hlen := h X[i] (List.getElem_mem hi)
+    have : (List.range nc).map ((fun col => col.getD i []) ∘ fun j => (column X j).map g) =
+        (List.range X[i].length).map (fun j => g (X[i].getD j [])) := by
+      rw [hlen]
+      apply List.map_congr_left
+      intro j _
+      simp [column, List.getD_eq_getElem?_getD, hi]
+    rw [this]
+    apply List.ext_getElem
+    · simp
+    · intro j h3 h4
+      have hj : j < X[i].length := by simpa using h3
+      simp [List.getD_eq_getElem?_getD, hj]
+
 end SkVerif.C14.Lem
